@@ -129,6 +129,7 @@ type evmTx struct {
 	mutated        bool // orphaned / re-mined / status flipped at some point
 	failFirstHead  uint64
 	abandonLegit   bool
+	pendingSeen    map[string]bool // "log index/block hash" -> the watcher held this message in its pending set at some point
 }
 
 type evmBlock struct {
@@ -209,6 +210,7 @@ type evmSim struct {
 	maxHeadServed     uint64
 	mutexHeldUntil    time.Duration
 	raceLogs          []int
+	watcher           *Watcher
 	headServedInPhase uint64
 	reobsPhase        bool
 	aborting          bool
@@ -752,6 +754,7 @@ func (h evmHarness) Exec(p *simkit.Program) *simkit.Result {
 			chain = vaa.ChainIDEthereum
 		}
 		w := NewEthWatcher("sim://evm", coreAddr, "evmsim", "evmsim", chain, msgC, nil, obsvReqC, false, &poll, !s.useFinal)
+		s.watcher = w
 		stopDrain := make(chan struct{})
 		go func() {
 			for {
@@ -782,6 +785,7 @@ func (h evmHarness) Exec(p *simkit.Program) *simkit.Result {
 			}
 			s.runStep(st, obsvReqC)
 			synctest.Wait() // the log line below must not race with the goroutines the step woke up
+			s.notePending()
 			s.mu.Lock()
 			s.log.Add("head=%d fin=%d inc=%d handoffs=%d seen=%d parked=%d polls=%d", s.head(), s.finalized, s.inc, len(s.handoffs), s.maxHeadServed, len(s.parked), s.reqs["blockByNumber"])
 			s.mu.Unlock()
@@ -845,7 +849,7 @@ func (h evmHarness) Exec(p *simkit.Program) *simkit.Result {
 }
 
 func (s *evmSim) addTx(kind, level, variant int) *evmTx {
-	tx := &evmTx{hash: crypto.Keccak256Hash([]byte("evmtx"), []byte(strconv.Itoa(len(s.txs)))), status: 1, handoffs: map[string]int{}}
+	tx := &evmTx{hash: crypto.Keccak256Hash([]byte("evmtx"), []byte(strconv.Itoa(len(s.txs)))), status: 1, handoffs: map[string]int{}, pendingSeen: map[string]bool{}}
 	seq := uint64(len(s.txs))
 	mk := func(addr ethCommon2.Address, topic ethCommon2.Hash, sq uint64) *evmLog {
 		pay := make([]byte, 20+variant%40)
@@ -1048,6 +1052,32 @@ func (s *evmSim) reobserve(st simkit.Step, obsvReqC chan *gossipv1.ObservationRe
 	_ = hex.EncodeToString
 }
 
+// notePending looks at the watcher's pending set while the bubble is quiescent (whoever holds the
+// pending lock is parked on an RPC call, nobody writes). A message that was pending once is owed to
+// the signer - by this Run or by the next one the supervisor starts on the same Watcher - unless its
+// transaction leaves its block or the abandonment window runs out.
+func (s *evmSim) notePending() {
+	if s.watcher == nil {
+		return
+	}
+	s.mu.Lock()
+	defer s.mu.Unlock()
+	for k := range s.watcher.pending {
+		for _, tx := range s.txs {
+			if tx.hash != k.TxHash {
+				continue
+			}
+			for _, l := range tx.logs {
+				pk := fmt.Sprintf("%d/%s", l.idx, k.BlockHash.Hex())
+				if l.sequence == k.Sequence && PadAddress(l.sender) == k.EmitterAddress && l.good && !tx.pendingSeen[pk] {
+					tx.pendingSeen[pk] = true
+					s.stats.Probe("message-seen-pending")
+				}
+			}
+		}
+	}
+}
+
 func (s *evmSim) raceReorg(tx *evmTx) {
 	s.mu.Lock()
 	if tx.block == nil || !s.canonical(tx.block) || tx.block.number <= s.finalized {
@@ -1143,13 +1173,19 @@ func (s *evmSim) settleRounds(tag string, jump int) bool {
 		return false
 	}
 	for _, tx := range s.txs {
-		if tx.deliveredInc != s.inc || tx.deliveredBlock == nil {
-			continue // the running incarnation never saw this log
+		if tx.deliveredBlock == nil {
+			continue
 		}
 		stays := tx.block == tx.deliveredBlock && s.canonical(tx.block) && tx.status == 1
 		for _, lg := range tx.logs {
 			if !lg.good {
 				continue
+			}
+			if tx.deliveredInc != s.inc && !tx.pendingSeen[fmt.Sprintf("%d/%s", lg.idx, tx.deliveredBlock.hash.Hex())] {
+				continue // the log went to an earlier Run and was lost with it before it became pending
+			}
+			if tx.deliveredInc != s.inc {
+				s.stats.Probe("pending-message-carried-over-a-restart")
 			}
 			n := 0
 			if tx.block != nil {
